@@ -77,7 +77,7 @@ def spec(tier, seed):
         n = len(hdr) + 4
         nm = "c11b_num_%s" % "_".join(("e%d" % (len(str(x)) - 1) if x >= 10**12 and str(x).strip("0") == "1" else ("p%d%s" % (x.bit_length() - (0 if x & (x - 1) else 1), "" if x & (x - 1) == 0 else "m" if (x + 1) & x == 0 else "x") if x > 9 else str(x))) for x in (a_, b_, c_, d_))
         inst.append(Instance(nm, "parser", "t_numeric_conc::<%d>(%s)" % (n, bytes_lit(hdr.encode())), unwind=max(len(hdr), 26) + 2,
-                             unwindset={"memcmp.0": 6}, stubs=[FROM_UTF8_STUB], mem_gb=8, timeout_s=1500, sub="C11b/d numeric fields through parse_hunk; capacity",
+                             unwindset={"memcmp.0": 6}, stubs=[FROM_UTF8_STUB], mem_gb=8, timeout_s=1500, sub="C11b/d numeric fields through parse_hunk; capacity", sweep=("parser", "replay_sweep_numeric"),
                              unwind_fns={"libpatch::patch::unified::parser::parse_hunk.0": 7},
                              params=dict(header=hdr.strip(), body="4 symbolic bytes (at most 4 hunk lines: the hunk loop is bounded by 7, unwinding assertion on)")))
     for d in ([20] if q else [1, 19, 20, 21]):
